@@ -431,15 +431,11 @@ def key_of(which, e, tok):
 
 # ------------------------------------------------------------------ tiny decoder input
 def tiny_ivf(chk_dir):
-    prefix = os.path.join(chk_dir, "tinyivf")
-    case = {"width": 64, "height": 64, "frames": 3, "cfg.enc_mode": 8, "cfg.logical_processors": 1,
-            "cfg.intra_period_length": -1, "cfg.hierarchical_levels": 3, "content": "pan"}
-    res = enc.run_case("asan", case, prefix)
-    if res.timed_out:
-        res = enc.run_case("asan", case, prefix)
-    if res.rc != 0 or not os.path.exists(prefix + ".ivf"):
-        raise core.HarnessError("cannot produce the tiny IVF for the decoder: rc=%s %s" % (res.rc, res.stderr[-300:]))
-    return prefix + ".ivf"
+    """committed 6-picture 64x64 stream (independent of the state of the encoder under test)"""
+    p = os.path.join(build.VERIF, "corpus", "tiny64x64_6f.ivf")
+    if not os.path.exists(p):
+        raise core.HarnessError("missing decoder input " + p)
+    return p
 
 
 # ------------------------------------------------------------------ driver
